@@ -100,8 +100,14 @@ func (self ValueString) Fields() (map[string]*Value, *VmInterrupt) {
 		}),
 		"substring": NewValueBuiltinFunction(func(executor Executor, cancelCtx *context.Context, span errors.Span, args ...Value) (*Value, *VmInterrupt) {
 			upper := args[0].(ValueInt).Inner
+			length := int64(len(self.Inner))
 
-			if upper < 0 || upper >= int64(len(self.Inner)) {
+			// A negative bound is counted from the end, like list indices
+			if upper < 0 {
+				upper += length
+			}
+
+			if upper < 0 || upper >= length {
 				return nil, NewVMThrowInterrupt(span, "index out of range")
 			}
 
